@@ -117,7 +117,7 @@ fn run(variant: usize) -> CaseOut {
     let flavour = flavour_of(variant);
     let n_ext = 1 + draw(3) as usize;
     let op = if draw(3) == 0 { "mutation" } else { "query" };
-    let mut query = gen_operation(op, GenCfg { typename: false, ..GenCfg::default() });
+    let mut query = gen_operation(op, GenCfg { typename: false, ..GenCfg::default() }.for_flavour(flavour == Flavour::Static));
     let mut rejected_at = None;
     // now and then the request names its operation and passes a variable
     let mut operation_name: Option<&str> = None;
